@@ -19,7 +19,7 @@ def outputIds (A : CAtoms) : Node → List Nat
   | .text i _ => [i]
   | .other _ _ => []
   | .elem i t attrs ks =>
-    if t == "script" || t == "style" then [] else if visible A i t attrs then i :: outputIdsL A ks else []
+    if t == "script" || t == "style" || A.foreignRaw i then [] else if visible A i t attrs then i :: outputIdsL A ks else []
 def outputIdsL (A : CAtoms) : List Node → List Nat
   | [] => []
   | k :: ks => outputIds A k ++ outputIdsL A ks
@@ -170,16 +170,18 @@ def videoOutput (abs absSet : String → String) (textOnly : Bool) (el : Node) :
 /-! ### embeds -/
 
 mutual
-def dropScriptStyle : Node → Node
+/-- `Embed.GenerateOutput` removes, below the embedded element, every script and style element and
+every foreign element named like a raw text element -/
+def dropScriptStyle (A : CAtoms) : Node → Node
   | .text i d => .text i d
   | .other i k => .other i k
-  | .elem i t a ks => .elem i t a (dropScriptStyleL ks)
-def dropScriptStyleL : List Node → List Node
+  | .elem i t a ks => .elem i t a (dropScriptStyleL A ks)
+def dropScriptStyleL (A : CAtoms) : List Node → List Node
   | [] => []
   | k :: ks =>
     match k with
-    | .elem _ t _ _ => if t == "script" || t == "style" then dropScriptStyleL ks else dropScriptStyle k :: dropScriptStyleL ks
-    | _ => dropScriptStyle k :: dropScriptStyleL ks
+    | .elem i t _ _ => if t == "script" || t == "style" || A.foreignRaw i then dropScriptStyleL A ks else dropScriptStyle A k :: dropScriptStyleL A ks
+    | _ => dropScriptStyle A k :: dropScriptStyleL A ks
 end
 
 def synthEmbedId : Nat := synthBase + 2
@@ -187,15 +189,15 @@ def synthEmbedId : Nat := synthBase + 2
 def embedMarkers (type id : String) : List Attr :=
   [⟨"class", "embed-placeholder"⟩, ⟨"data-type", type⟩, ⟨"data-id", id⟩]
 
-def embedKids (el : Node) : List Node :=
-  if el.tag == "blockquote" || el.tag == "iframe" then [stripNode (dropScriptStyle el)] else []
+def embedKids (A : CAtoms) (el : Node) : List Node :=
+  if el.tag == "blockquote" || el.tag == "iframe" then [stripNode (dropScriptStyle A el)] else []
 
 /-- the placeholder `Embed.GenerateOutput` creates -/
-def embedTree (type id : String) (el : Node) : Node :=
-  .elem synthEmbedId "div" (embedMarkers type id) (embedKids el)
+def embedTree (A : CAtoms) (type id : String) (el : Node) : Node :=
+  .elem synthEmbedId "div" (embedMarkers type id) (embedKids A el)
 
-def embedOutput (textOnly : Bool) (type id : String) (el : Node) : List Char :=
-  if textOnly then [] else outerHTML (embedTree type id el)
+def embedOutput (A : CAtoms) (textOnly : Bool) (type id : String) (el : Node) : List Char :=
+  if textOnly then [] else outerHTML (embedTree A type id el)
 
 /-! ### Document.GetImageURLs -/
 
